@@ -2311,6 +2311,23 @@ class Engine:
                 nB = zmax(toz(Bv.hi) - toz(Bv.lo), z3.IntVal(0))
                 t = z3.Int('pairs!t')
                 return VPairs(z3.simplify(nA * nB), z3.Lambda([t], toz(A.lo) + py_floordiv(t, nB)), z3.Lambda([t], toz(Bv.lo) + py_mod(t, nB)))
+        if len(e.generators) == 1 and len(e.generators[0].ifs) == 1 and isinstance(e.generators[0].target, ast.Name):
+            # [f(u) for u in range(lo, hi) if u <= B] (B not depending on u): the same list as over range(lo, min(hi, B + 1))
+            g0 = e.generators[0]
+            c0 = g0.ifs[0]
+            if isinstance(c0, ast.Compare) and len(c0.ops) == 1 and isinstance(c0.ops[0], (ast.LtE, ast.Lt)) and isinstance(c0.left, ast.Name) \
+                    and c0.left.id == g0.target.id and not any(isinstance(x, ast.Name) and x.id == g0.target.id for x in ast.walk(c0.comparators[0])):
+                itv = self.eval_iter(g0.iter, env)
+                if isinstance(itv, VRange) and itv.step == 1:
+                    bound = toz(self.eval(c0.comparators[0], env)) + (1 if isinstance(c0.ops[0], ast.LtE) else 0)
+                    nm = '__cmp_rng{}'.format(id(e))
+                    e2 = dict(env)
+                    e2[nm] = VRange(itv.lo, z3.simplify(zmin(toz(itv.hi), bound)), 1)
+                    stripped = type(e)(elt=e.elt, generators=[ast.comprehension(target=g0.target, iter=ast.Name(id=nm, ctx=ast.Load()), ifs=[], is_async=0)])
+                    ast.copy_location(stripped, e)
+                    ast.fix_missing_locations(stripped)
+                    self.keep_alive = getattr(self, 'keep_alive', []) + [stripped]
+                    return self.ev_ListComp(stripped, e2)
         if len(e.generators) != 1 or e.generators[0].ifs:
             raise Unsupported('comprehension shape')
         g = e.generators[0]
